@@ -162,7 +162,10 @@ def gen_cases(tier: str, seed: int):
         dur = rng.choice([0.5, 3.0, 8.0, 15.0])
         cases.append({'name': f'contain{j}', 'type': 'contain', 'seed': rng.randrange(1 << 30), 'error_delays': delays, 'window': [t1, round(t1 + dur, 3)],
                       'fault': rng.choice(['status500', 'status500', 'text', 'conn', 'status422']), 'second_window': rng.random() < 0.5,
-                      'edits_b': sorted(round(rng.uniform(3.0, 40.0), 3) for _ in range(rng.randint(3, 8)))})
+                      'edits_b': sorted(round(rng.uniform(3.0, 40.0), 3) for _ in range(rng.randint(3, 8))),
+                      # several events of the failing object inside ONE error delay (they interrupt the pause, their cycles are skipped): the delays
+                      # must still grow per consecutive error, a skipped cycle is not a success
+                      'flood': random.Random(f'C12-flood-{seed}-{j}').choice([None, 0.15, 0.4, 0.9, 1.7])})
     return cases
 
 
@@ -442,6 +445,14 @@ def run_contain(case: dict[str, Any]) -> dict[str, Any]:
         tl.append([pokes[-1], 'edit', 'a', {'spec': {'x': 10 * k + 5}}])
     for j, t in enumerate(case['edits_b']):
         tl.append([t, 'edit', 'b', {'spec': {'x': j + 1}}])
+    if case.get('flood'):
+        for w_ in windows:
+            tf = w_[0] + 0.3
+            n_f = 0
+            while tf < w_[1] + 3.0 and n_f < 60:
+                n_f += 1
+                tl.append([round(tf, 3), 'edit', 'a', {'spec': {'y': round(tf, 3)}}])
+                tf += case['flood']
     tl.sort(key=lambda x: x[0])
     desc = {'seed': case['seed'], 'handlers': [{'kind': 'create', 'id': 'c1'}, {'kind': 'update', 'id': 'u1'}], 'timeline': tl, 'faults': faults, 'quiet': 30.0, 'horizon': 600.0,
             'latency': 0.001, 'settings': {'networking__error_backoffs': [0.1, 0.2], 'queueing__error_delays': list(case['error_delays']), 'persistence__consistency_timeout': 0.5,
@@ -467,6 +478,9 @@ def run_contain(case: dict[str, Any]) -> dict[str, Any]:
         failed = bool(r.fault and ('status' in r.fault or 'text' in r.fault or 'conn' in r.fault))
         if failed and steps and steps[-1]['failed'] and len(steps[-1]['reqs']) < n_att and r.t - steps[-1]['reqs'][-1].t <= 0.25:
             steps[-1]['reqs'].append(r)      # one cycle = one request with its retries (error_backoffs=[0.1, 0.2]: 3 attempts of a retryable fault)
+        elif not failed and steps and steps[-1]['failed'] and len(steps[-1]['reqs']) < n_att and r.t - steps[-1]['reqs'][-1].t <= 0.25:
+            steps[-1]['reqs'].append(r)      # ... whose last retry got through (the fault window ended in between): that request, and its cycle, succeeded
+            steps[-1]['failed'] = False
         else:
             steps.append({'failed': failed, 'reqs': [r]})
     rounds = [st['reqs'] for st in steps if st['failed']]
